@@ -1,13 +1,15 @@
 package main
 
 import (
+	"regexp"
+	"strconv"
 	"strings"
 )
 
 func init() { campaigns["C04"] = runC04 }
 
 func runC04(e *env) error {
-	e.rep.Rule = "cases = (converter, source value with internal sharing): converters without custom functions over generated type pairs, half of them with skipCopySameType, executed on values in which the same pointer or slice is reachable along several paths; observed: which locations of the result are locations of the source (address labelling by the reflective executor, zero-size types excluded), whether the erased source is unchanged after the call; the thorough tier also builds with -race and converts the same source from 8 goroutines. Compared with Gv.Eval (locations) and with the rule: without skipCopySameType no source location may appear in the result. non-trivial = the source value contains at least one reference cell; distinct = (converter, value)"
+	e.rep.Rule = "cases = (converter, source value with internal sharing): converters without custom functions over generated type pairs, half of them with skipCopySameType (plus a pinned set: identical pairs, named type vs identical unnamed literal in both directions, value-to-pointer of identical types, each at top level / field / element / map value), executed on values in which the same pointer or slice is reachable along several paths; observed: which locations of the result are locations of the source (address labelling by the reflective executor, zero-size types excluded), whether the erased source is unchanged after the call; the thorough tier also builds with -race and converts the same source from 8 goroutines. Compared with Gv.Eval (locations) and with the rule: without skipCopySameType no source location may appear in the result. non-trivial = the source value contains at least one reference cell; distinct = (converter, value)"
 	r := e.r.Fork(4)
 	n, per := 2, 50
 	if e.thorough {
@@ -28,7 +30,7 @@ func runC04(e *env) error {
 		plain[0].Race = true
 		skip[0].Race = true
 	}
-	res, err := runK2(e, "c04", append(plain, skip...))
+	res, err := runK2(e, "c04", append(append(plain, skip...), skipCopyPinnedBatch()))
 	if err != nil {
 		return err
 	}
@@ -51,7 +53,7 @@ func runC04(e *env) error {
 			e.rep.Violation("source-modified", map[string]any{"call": c, "broken": "C04: the source value changed during the conversion"}, false)
 		case c.Impl != c.Model:
 			class := ""
-			if skipCopy && strings.HasPrefix(c.Model, "(ok") && (shares || strings.Contains(c.Source, "]*")) {
+			if skipCopy && strings.HasPrefix(c.Model, "(ok") && isD11(c) {
 				// result points INTO the source at a position the model copies: value -> pointer under skipCopySameType
 				class = "D11"
 			}
@@ -73,3 +75,95 @@ func runC04(e *env) error {
 	}
 	return nil
 }
+
+// isD11 recognises the known finding D11 and nothing else: under skipCopySameType a VALUE converted to a POINTER of the
+// identical type is emitted as `&source[i]`, `&(*source).F` or `&value`, so the first place where the executed result
+// differs from the model is the location of a pointer, and that location is either the backing array of a source slice
+// (element 0), an unlabelled interior address, or the shared range variable.  A pointer, slice or map cell of the source
+// that is handed on as such (`(ptr (s k)` with k a pointer cell of the input, `(sl (s`, `(mp (s`) is NOT this finding.
+var ptrFreshRe = regexp.MustCompile(`\(ptr \(n [0-9]+\)`)
+
+func isD11(c *k2Call) bool {
+	a, b := c.Impl, c.Model
+	// `&value` of the range variable (go.mod says go 1.18: one variable per loop): the same fresh pointer occurs
+	// several times in the executed result and holds the last element, where the model has one pointer per entry
+	rep := func(s string) bool {
+		seen := map[string]int{}
+		for _, m := range ptrFreshRe.FindAllString(s, -1) {
+			seen[m]++
+			if seen[m] > 1 {
+				return true
+			}
+		}
+		return false
+	}
+	if rep(a) && !rep(b) {
+		return true
+	}
+	i := 0
+	for i < len(a) && i < len(b) && a[i] == b[i] {
+		i++
+	}
+	if i >= len(a) || i >= len(b) {
+		return false
+	}
+	// the node whose location differs
+	j := strings.LastIndex(a[:i], "(")
+	for j > 0 && !(strings.HasPrefix(a[j:], "(ptr ") || strings.HasPrefix(a[j:], "(sl ") || strings.HasPrefix(a[j:], "(mp ")) {
+		j = strings.LastIndex(a[:j], "(")
+	}
+	if j < 0 || !strings.HasPrefix(a[j:], "(ptr ") {
+		return false
+	}
+	loc := a[j+len("(ptr "):]
+	if strings.HasPrefix(loc, "(n ") {
+		return true
+	}
+	if strings.HasPrefix(loc, "(s ") {
+		k := loc[len("(s "):]
+		if e := strings.Index(k, ")"); e > 0 {
+			k = k[:e]
+		}
+		args := strings.Join(c.Values, " ")
+		// a source SLICE cell (its element 0 has the address of the backing array), not a source pointer cell
+		return strings.Contains(args, "(sl "+k+" ") || strings.Contains(args, "(sl "+k+")")
+	}
+	return false
+}
+
+// skipCopyPinnedBatch: skipCopySameType over pairs that are identical, that differ only by a name (a named slice, map
+// or pointer type against its identical unnamed literal, both directions) and value -> pointer pairs of identical types
+// (the shapes of known finding D11), each at top level, in a struct field, as slice element and as map value.
+func skipCopyPinnedBatch() *k2Batch {
+	kb := &k2Batch{Tag: "skipcopy-pinned", Convs: map[string]string{}, ValModes: 7, Share: 60}
+	var types strings.Builder
+	types.WriteString("type ScTags []string\ntype ScLabels map[string]string\ntype ScPtr *int\ntype ScItem struct {\n\tA int\n\tP *int\n}\n\n")
+	pairs := [][2]string{
+		{"[]string", "[]string"}, {"ScTags", "[]string"}, {"[]string", "ScTags"}, {"ScTags", "ScTags"},
+		{"ScLabels", "map[string]string"}, {"map[string]string", "ScLabels"}, {"*int", "ScPtr"}, {"ScPtr", "*int"},
+		{"ScItem", "*ScItem"}, {"[]int", "*[]int"}, {"int", "*int"}, {"*ScItem", "*ScItem"}, {"[]*int", "[]*int"},
+	}
+	n := 0
+	for _, pr := range pairs {
+		for _, pos := range []string{"top", "field", "elem", "mapval"} {
+			s, t := pr[0], pr[1]
+			switch pos {
+			case "field":
+				types.WriteString("type ScS" + itoa(n) + " struct {\n\tF " + s + "\n\tG int\n}\ntype ScT" + itoa(n) + " struct {\n\tF " + t + "\n\tG int\n}\n")
+				s, t = "ScS"+itoa(n), "ScT"+itoa(n)
+			case "elem":
+				s, t = "[]"+s, "[]"+t
+			case "mapval":
+				s, t = "map[string]"+s, "map[string]"+t
+			}
+			name := "Sc" + itoa(n)
+			n++
+			kb.Convs[name] = "// goverter:converter\n// goverter:skipCopySameType\ntype " + name + " interface {\n\tConvert(source " + s + ") " + t + "\n}\n\n"
+			kb.Order = append(kb.Order, name)
+		}
+	}
+	kb.Types = types.String()
+	return kb
+}
+
+func itoa(n int) string { return strconv.Itoa(n) }
